@@ -209,7 +209,8 @@ def run_check(modname, tier, seed, jobs=None):
         "distinct_nontrivial": len(agg.nontrivial),
         "rule": mod.RULE,
         "samples": jsonable(agg.samples[:8]) or [{"note": "no sample recorded"}],
-        "exhaustive": bool(getattr(mod, "EXHAUSTIVE", True)) and agg.truncated == 0,
+        "exhaustive": bool(getattr(mod, "EXHAUSTIVE", True)) and agg.truncated == 0 and agg.skipped == 0,
+        "exhaustive_note": "true = the stated box was enumerated completely; skipped/truncated counts say what was left out",
         "skipped_instances": agg.skipped,
         "truncated_paths": agg.truncated,
         "counters": {k: agg.counters[k] for k in sorted(agg.counters)},
